@@ -24,6 +24,11 @@ def crafted(rng, tier):
     for nb in (57, 58, 59, 116, 117):
         g = RG.G("file", b"declared_%d_blocks" % nb, data=b"q" * 3000, level=1); g.length = nb * 2048 - rng.choice([0, 1, 2047])
         out.append([g])
+    # members that really have nb blocks (every 'o' of the bar is printed): around each change of the scale factor; thorough: all
+    blob = bytes(rng.randrange(256) for _ in range(4096)) * 66
+    for nb in (range(0, 131) if tier == "thorough" else (0, 1, 2, 57, 58, 59, 60, 115, 116, 117, 118, 130)):
+        n = max(0, nb * 2048 - rng.choice([0, 1, 1000, 2047])) if nb else 0
+        out.append([RG.G("file", b"full_%d_blocks" % nb, data=blob[:n], level=1 + nb % 2)])
     out.append([RG.G("file", b"ctl\x1b[2Jname\x07", data=b"abc", level=1), RG.G("file", b"hi\xff\x80", data=b"abcd", level=2),
                 RG.G("link", b"ln\x9b", target=b"t\x1b]0;x\x07", level=1), RG.G("dir", b"d\x0d", level=1)])
     out.append([RG.G("file", b"un", data=b"abc", method=b"-lh2-"), RG.G("file", b"bad", data=b"abcdef", crc=0x1234), RG.G("file", b"ok", data=b"fine")])
